@@ -410,6 +410,12 @@ class Weaver:
                 if n >= len(loops):
                     raise LostAnchor(f'{file}: loop #{n} of {item_id} not found (have {len(loops)})')
                 inserts.append((loops[n][1], '\n' + indent(lp['invariant'].strip(), 8) + '\n    /*vx-body*/'))
+                if lp.get('iter'):
+                    # spec-only: name the ghost iterator of a `for` loop (`for x in it: expr`)
+                    mm = re.search(r'\sin\s', tmask[loops[n][0]:loops[n][1]])
+                    if not mm:
+                        raise LostAnchor(f'{file}: loop #{n} of {item_id} is not a for-in loop')
+                    inserts.append((loops[n][0] + mm.end(), lp['iter'] + ': '))
                 u.clauses.append(f'{u.name}.{item_id}.loop{n}')
             if it.get('loops_expected') is not None and len(loops) != it['loops_expected']:
                 raise LostAnchor(f'{file}: {item_id} has {len(loops)} loops, contracts expect {it["loops_expected"]}')
